@@ -226,6 +226,9 @@ class World:
                  'cls': rng.choice(['M', 'M', 'M', 'NoPoll', 'Typed']), 'export': rng.random() > 0.15, 'x': rng.choice([None, None, 3.5]),
                  'read_takes': rng.choice([0, 0, 0, 2, 50]), 'shutdown_takes': rng.choice([0, 0, 7]), 'read_fails': rng.random() < 0.1, 'fail': rng.choice([None] * 12 + ['early', 'init'])}
             mods.append(m)
+        for m in mods:
+            if m['a1'] and m['cls'] != 'Typed' and rng.random() < 0.15:
+                m['a1_bare'] = True
         rng.shuffle(mods)
         scen = {'mods': mods, 'kind': 'random', 'other': any(m['a1'] == 'other' or m['a2'] == 'other' for m in mods)}
         q = rng.random()
@@ -279,7 +282,12 @@ class World:
             c = {'cls': sub, 'description': m['name']}
             for slot in ('a1', 'a2'):
                 if m.get(slot):
-                    c[slot] = m[slot]
+                    if slot == 'a1' and m.get('a1_bare'):
+                        # the class fixes the name of the attached module (bare value overriding the property)
+                        sub = type(sub.__name__ + 'Fixed', (sub,), {'a1': m[slot], '__module__': __name__})
+                        c['cls'] = sub
+                    else:
+                        c[slot] = m[slot]
             if m.get('export') is False:
                 c['export'] = False
             if m.get('x') is not None:
@@ -473,6 +481,17 @@ class World:
                 what = 'unexported-module' if not mod.export else 'module'
                 r.violation(f'C15/lifecycle-order/{what}', f'{name}: {ev} instead of early, init, start, shutdown', dict(case, module=name))
                 return
+        # ---- a module that uses its attachments while it initialises has got them
+        for m in scen['mods']:
+            if m.get('use') in ('init', 'early'):
+                for slot in ('a1', 'a2'):
+                    t = m.get(slot)
+                    if t and t in names:
+                        r.count('attachments_expected')
+                        if not any(e[2] == m['name'] and e[3] == 'uses' and e[4] == t for e in LOG):
+                            how = 'fixed-by-the-class' if slot == 'a1' and m.get('a1_bare') else 'configured'
+                            r.violation(f'C15/attachment-not-available/{how}', f'{m["name"]}.{slot} = {t!r} ({how}): the module did not get its attached module', dict(case, module=m['name']))
+                            return
         # ---- an attached module is fully initialised before its user sees it
         for e in LOG:
             if e[3] == 'uses':
